@@ -38,12 +38,14 @@ Record ops (A S O : Type) : Type := mkOps {
   o_auth_init : A;                                                       (* _dbus_auth_server_new *)
   o_auth_feed : A -> bytes -> A * bytes * averdict;                      (* bytes read -> (state, bytes written back, verdict) *)
   o_dispatch : S -> N -> bool -> message -> S * list (N * O) * verdict;  (* bus_dispatch (sender, sender active?, message) *)
-  o_disconnect : S -> N -> bool -> S * list (N * O)                      (* bus_connection_disconnected (connection, was active?) *)
+  o_disconnect : S -> N -> bool -> S * list (N * O);                     (* bus_connection_disconnected (connection, was active?) *)
+  o_tick : S -> N -> S * list (N * O)                                    (* d ms have passed: the core's own timers (activation outcomes) *)
 }.
 Arguments o_auth_init {A S O}.
 Arguments o_auth_feed {A S O}.
 Arguments o_dispatch {A S O}.
 Arguments o_disconnect {A S O}.
+Arguments o_tick {A S O}.
 
 Inductive phase (A : Type) :=
 | PCred                 (* the credentials byte has not been read (exchange_credentials) *)
@@ -91,7 +93,7 @@ Inductive event :=
                                 (* read() on c returned d; [wok]: a write() to c attempted while this
                                    event is handled succeeds (false = EPIPE: the peer is already gone) *)
 | EEof (c : N)                  (* read() on c returned 0 / an error: do_io_error *)
-| ETick (d : N).                (* d ms pass; the expiry timer runs *)
+| ETick (d : N).                (* d ms pass; the expiry timer and the core's timers run *)
 
 Inductive out (O : Type) :=
 | OAuth (c : N) (reply : bytes)   (* handshake bytes written to c *)
@@ -223,7 +225,10 @@ Section Bus.
                 | None => (st, [])
                 | Some x => drop st x
                 end
-    | ETick d => expire (mkSt (s_now st + d) (s_conns st) (s_core st))
+    | ETick d =>
+        let '(st1, o1) := expire (mkSt (s_now st + d) (s_conns st) (s_core st)) in
+        let '(k, o2) := o_tick P (s_core st1) d in
+        (mkSt (s_now st1) (s_conns st1) k, o1 ++ map OCore o2)
     end.
 
   Fixpoint run (st : state A S) (h : list event) : state A S * list (out O) :=
